@@ -203,3 +203,12 @@ CHECKS["C20"] = dict(
     level_text="Metamorphic random testing of concurrent overlapping requests against their run-alone outcomes, with generated relative speeds; one protocol-level defect recorded.",
     level_note="Trusts the run-alone outcome as reference; intra-step interleavings are the Go scheduler's.",
     technique="rapid metamorphic testing (concurrent vs run-alone) in a synctest bubble", design_ref="DESIGN.md §4 C20")
+
+CHECKS["C22"] = dict(
+    pkg="props/c22", level="fault_enumeration", gomaxprocs=1, crash_class=True,
+    rule="two real instances; request 1 fetches a generated DAG (recursive explore-all), request 2 (the bystander) a second, content-disjoint generated DAG, issued before or after request 1 gets going; a panic is injected at the k-th distinct block (k = 0..5) of request 1's traversal in one user-supplied function: codec decoder (custom DecoderChooser), node reifier, link-target prototype chooser (installed through the request hooks), storage read, storage write / commit, on the requestor or the responder. Every case is journaled before it runs and also run without the injection. Oracle: the process survives (a dead worker is attributed to the journaled case); the panic fired => requestor site: request 1's channels close and its error channel reported an error; responder site: the response ends with exactly one terminal status and it is a failure status; the panic value reached the panic callback configured on the side where it was raised; the bystander's delivered nodes, errors and channel closure are identical to the run without injection. Non-trivial: the injected site was actually reached. Storage-function sites belong to a listed known finding and are excluded by construction.",
+    assumptions=_SIM_ASSUME + ["'selector' as a panic site would need a hostile ipld.Node implementation of the selector itself and is not injected"],
+    quick=dict(shards=2, timeout=400), thorough=dict(shards=16, timeout=3000),
+    level_text="Site x side x block-index fault grid on generated DAGs with a differential bystander check; crash attribution through a journal. One defect class (storage functions) recorded.",
+    level_note="Intra-step interleavings are the Go scheduler's.",
+    technique="rapid fault-injection testing (panic sites) in a synctest bubble with crash journaling", design_ref="DESIGN.md §4 C22")
